@@ -551,4 +551,18 @@ def collectGarbage (s : St) (roots : List Ref) : Res St :=
   | .error e => .error (e, s1)
   | .ok t => .ok { s1 with storage := t }
 
+/-- `collect_garbage` called while the caller still holds a `RefCell` guard from one of the public
+accessors (`which` = 0: `cache()`, 1: `size_cache()`, 2: `storage()`): the first mutable borrow of
+that cell panics ("already borrowed").  The statement order of the code decides what has happened
+by then: the operation cache is cleared first, the size cache second, the table is borrowed last. -/
+def collectGarbageHeld (which : Nat) (s : St) : Res St :=
+  match which with
+  | 0 => .error (.assertion, s)
+  | 1 => .error (.assertion, { s with cache := s.cache.clear })
+  | _ =>
+    -- the table is borrowed mutably only when a non-empty bucket is met (to drop its head or to
+    -- store the bucket head back); with every bucket empty the collection completes
+    let s1 : St := { s with cache := s.cache.clear, sizeCache := s.sizeCache.clear }
+    if s.storage.buckets.all (· == 0) then .ok s1 else .error (.assertion, s1)
+
 end P
